@@ -545,9 +545,9 @@ def run(ctx):
         lines_family_search(ctx, n_pairs_per_isa=ctx.n(2, 6), n_random=ctx.n(10, 40), budget_s=ctx.n(60, 400))
         selection_oracle_only(ctx, ctx.n(1200, 6000))
     # the end-to-end oracle; when something above broke, spend more of the budget searching
-    end_to_end(ctx, budget_s=ctx.n(75, 700) * (1.5 if broken else 1), n_pairs=ctx.n(14, None), n_noise=ctx.n(2, 5))
+    end_to_end(ctx, budget_s=ctx.n(75, 600) * (1.5 if broken else 1), n_pairs=ctx.n(14, None), n_noise=ctx.n(2, 5))
     if not broken:
-        lines_family_search(ctx, n_pairs_per_isa=ctx.n(1, 8), n_random=ctx.n(4, 20), budget_s=ctx.n(25, 200))
+        lines_family_search(ctx, n_pairs_per_isa=ctx.n(1, 8), n_random=ctx.n(4, 20), budget_s=ctx.n(25, 150))
     ctx.coverage["model_variant"] = variant
 
 
